@@ -128,21 +128,22 @@ mutual
     -- [finding C26-subshell-errexit-ignored]
     | .assignSub _ p => !p.isNil && !(k.e && (k.ign || k.unk)) && supProg (subCtx k) false p
     | .subsh p => !p.isNil && !(k.e && (k.ign || k.unk)) && supProg (subCtx k) false p
-    | .block p => supProg k true p
+    | .block p => !p.isNil && supProg k true p
     | .and x y => supStmt { k with ign := true, tl := headFalse k.tl } x && supStmt k y
     | .or x y => supStmt { k with ign := true, tl := headFalse k.tl } x && supStmt k y
     -- [finding C26-pipeline-last-stage] the last stage is a simple command without effect
     | .pipe x y =>
       !(k.e && (k.ign || k.unk)) && supPipeL k x && supPipeR y
     | .ifc c t e =>
-      !c.isNil && supProg { k with ign := true, tl := headFalse k.tl } false c && supProg k true t && supElse k e
+      !c.isNil && supProg { k with ign := true, tl := headFalse k.tl } false c
+        && !t.isNil && supProg k true t && supElse k e
     | .whl _ c b =>
       !c.isNil && supProg { k with ign := true, tl := headFalse k.tl } false c
-        && supBody { k with tl := true :: k.tl } b && lastZero b
+        && !b.isNil && supBody { k with tl := true :: k.tl } b && lastZero b
     | .forc _ _ b =>
-      supBody { k with tl := true :: k.tl, inFor := true } b && (!k.e || k.ign || tailOk b)
+      !b.isNil && supBody { k with tl := true :: k.tl, inFor := true } b && (!k.e || k.ign || tailOk b)
     | .case _ is => supItems k false is
-    | .fn _ (.mk false (.block p)) => supProg (fnCtx k) true p
+    | .fn _ (.mk false (.block p)) => !p.isNil && supProg (fnCtx k) true p
     | .fn _ _ => false
   /-- left operand of a pipeline: a non-negated statement run in a subshell -/
   def supPipeL (k : SCtx) : Stmt → Bool
@@ -165,9 +166,10 @@ mutual
     | .cons s r => supStmt k s && supBody k r
   def supElse (k : SCtx) : Else → Bool
     | .none => true
-    | .els p => supProg k true p
+    | .els p => !p.isNil && supProg k true p
     | .elif c t e =>
-      !c.isNil && supProg { k with ign := true, tl := headFalse k.tl } false c && supProg k true t && supElse k e
+      !c.isNil && supProg { k with ign := true, tl := headFalse k.tl } false c
+        && !t.isNil && supProg k true t && supElse k e
   /-- [finding C26-case-empty-clause] `chain`: an earlier item ends in `;&` or `;;&`; an empty
       clause may then run after a failing one. -/
   def supItems (k : SCtx) (chain : Bool) : Items → Bool
